@@ -17,6 +17,7 @@ import (
 	"github.com/mgtv-tech/redis-GunYu/pkg/log"
 	"github.com/mgtv-tech/redis-GunYu/pkg/metric"
 	usync "github.com/mgtv-tech/redis-GunYu/pkg/sync"
+	"github.com/mgtv-tech/redis-GunYu/pkg/verifhook"
 )
 
 type Observer interface {
@@ -194,6 +195,7 @@ func (w *AofRotater) getObserver() Observer {
 func (w *AofRotater) openFile(offset int64) error {
 
 	filepath := aofFilePath(w.dir, offset)
+	verifhook.Point("store.fs", "aof.create", filepath)
 	file, err := os.OpenFile(filepath, os.O_WRONLY|os.O_CREATE|os.O_TRUNC, 0777)
 	w.logger.Debugf("new aof file : %s, %v", filepath, err)
 	if err != nil {
@@ -246,6 +248,7 @@ func (w *AofRotater) write(buf []byte) error {
 		return io.EOF
 	}
 
+	verifhook.Point("store.fs", "aof.append", w.filepath)
 	n, err := w.file.Write(buf)
 	if n > 0 {
 		w.dirtyDataSize.Add(int64(n))
@@ -314,6 +317,7 @@ func (w *AofRotater) closeAof() error { // ensure close() and write() are in sam
 			return err
 		}
 
+		verifhook.Point("store.fs", "aof.close", w.filepath)
 		if w.filesize == headerSize {
 			err := ret(nil)
 			w.getObserver().Close(w.left, int64(0))
